@@ -17,6 +17,8 @@ def run(ctx):
     ctx.assumptions = ['Legendre/square-root arithmetic is not decided']
     for cfg, prog in ctx.programs().items():
         reject.rule_field_sampling(ctx, cfg, prog)
+        from .. import consts
+        consts.rule_sampling_masks(ctx, cfg, prog)
         n = reject.rule_hash_reduce(ctx, cfg, prog)
         ctx.floor('hash_reduce call sites[%s]' % cfg, n, 2)
         reject.rule_point_sampling(ctx, cfg, prog)
